@@ -2297,7 +2297,9 @@ def _make_promotion_decls(
             name=name,
             c_type=cpp_type,
             expr=_default_value_for_type(cpp_type),
-            global_scope=scope == "setup" and depth == 0,
+            # names hoisted out of a top-level statement of the prologue or of the main
+            # loop body live at file scope: their values persist from pass to pass
+            global_scope=(scope == "setup" and depth == 0) or (scope == "loop" and depth == 1),
         )
         if decl.global_scope:
             if all(existing.name != name for existing in globals_list):
